@@ -71,7 +71,7 @@ def make_corpus(tier, seed):
     from checks import c11, c12
     n = {"quick": (250, 100, 100, 400), "thorough": (1400, 500, 500, 1600)}[tier]
     corpus = []
-    for c in collect(H.histories(H.Opts()), n[0], seed * 7 + 1):
+    for c in collect(H.histories(H.Opts(fresh=True, divmod_item=True)), n[0], seed * 7 + 1):
         corpus.append(dict(c, kind="history"))
     # a profile rich in whole-container readers (computed keys) next to readers of single members: an assignment to a
     # member then starts the sort from two refs (owner and item), whose visiting order follows the hash
